@@ -25,7 +25,7 @@ void prewarm() {
   (void)dispenso::CpuSet::l3CacheGroups(); // reads sysfs once; keep that out of the executions
   // The engine classifies a store as "changed memory" by comparing with the previous content, so the initial
   // stores into freshly malloc'ed objects depend on heap garbage. Make fresh allocations deterministic.
-  mallopt(M_PERTURB, 0x5a);
+  if (!getenv("LIFECYCLE_NOPERTURB")) mallopt(M_PERTURB, 0x5a);
 }
 static mc::HookSetter hooks(prewarm, nullptr);
 
@@ -133,7 +133,8 @@ MC_HARNESS(idle_submit) {
 //         enterSleep, so "between enterSleep and the futex wait" is one preemption away), 2 act after a quiet
 //         period in which every worker is blocked in its futex wait (wake mode only);
 //   op: d = destroy, r<m> = resize(m), w0 / w1 = setSignalingWake(false, 200us) / setSignalingWake(true).
-// In wake mode timed futex waits never expire (the harness switches MC_OPT_TIMEOUTS off), so a worker that misses
+// In wake mode timed futex waits never expire once the call under test begins (the harness switches
+// MC_OPT_TIMEOUTS off right before it), so a worker that misses
 // stop()+wakeAll() leaves T0 blocked in join => deadlock verdict. In poll mode the 200us poll period is the
 // mechanism, timeouts stay on and the oracle is termination. After the call: live modelled threads == 1 + new size.
 MC_HARNESS(lifecycle) {
@@ -155,7 +156,8 @@ MC_HARNESS(lifecycle) {
       mc::cover("all_parked");
     }
     bool wake_mode = !poll;
-    mc::opt(MC_OPT_TIMEOUTS, wake_mode ? 0 : 1);
+    // (timeouts stay on while the optional task is submitted: a submission racing a worker that is just parking
+    // is allowed to fall back on the backstop - documented in thread_pool.h - and is not what C09 is about)
     if (task) {
       pool->schedule(
           [&] {
@@ -175,6 +177,7 @@ MC_HARNESS(lifecycle) {
       mc::cover("at_enter_sleep");
     }
     int size_now = n;
+    mc::opt(MC_OPT_TIMEOUTS, wake_mode ? 0 : 1); // from here on a wake-mode worker is only ever woken by wakeAll()
     if (op == "d") {
       pool.reset();
       expect_live(0, "~ThreadPool");
@@ -281,8 +284,11 @@ MC_HARNESS(resize_work) {
     return true;
   };
   {
-    dispenso::ThreadPool pool((size_t)n);
-    mc::spawn([&] { // ---- thread A
+    // pool and task sets live on the heap (deterministic fill, see prewarm): their atomics must not start from
+    // whatever the previous execution left on a reused thread stack
+    auto pool_p = std::make_unique<dispenso::ThreadPool>((size_t)n);
+    dispenso::ThreadPool& pool = *pool_p;
+    auto thread_a = [&] { // ---- thread A (runs on T0, see below)
       g.a_tid = mc_self_id();
       auto ring_likely = [&](int cnt) {
         long np = (long)pool.numThreads_.a_.load(std::memory_order_relaxed);
@@ -298,20 +304,23 @@ MC_HARNESS(resize_work) {
         for (int i = 0; i < k; i++) pool.schedule(Fn(&t, &g, i));
         g.armed.set(0), g.submitted.set(1);
       } else if (path == "ts") {
-        dispenso::TaskSet ts(pool);
+        auto ts_p = std::make_unique<dispenso::TaskSet>(pool);
+        dispenso::TaskSet& ts = *ts_p;
         for (int i = 0; i < k; i++) ts.schedule(Fn(&t, &g, i));
         g.armed.set(0), g.submitted.set(1);
         ts.wait();
         MC_CHECK(all_finished(), "TaskSet::wait() returned with %d of %d tasks finished", t.nfinished.get(), ntasks);
       } else if (path == "tb") {
-        dispenso::TaskSet ts(pool);
+        auto ts_p = std::make_unique<dispenso::TaskSet>(pool);
+        dispenso::TaskSet& ts = *ts_p;
         if (ring_likely(k)) mc::cover("ring_fast_path");
         ts.scheduleBulk((size_t)k, gen);
         g.armed.set(0), g.submitted.set(1);
         ts.wait();
         MC_CHECK(all_finished(), "TaskSet::wait() returned with %d of %d tasks finished", t.nfinished.get(), ntasks);
       } else if (path == "cs") {
-        dispenso::ConcurrentTaskSet cts(pool);
+        auto cts_p = std::make_unique<dispenso::ConcurrentTaskSet>(pool);
+        dispenso::ConcurrentTaskSet& cts = *cts_p;
         for (int i = 0; i < k; i++) {
           cts.schedule(Fn(&t, &g, i));
           if (pool.stealRingsWithWork_.a_.load(std::memory_order_relaxed) != 0) mc::cover("steal_ring");
@@ -320,7 +329,8 @@ MC_HARNESS(resize_work) {
         cts.wait();
         MC_CHECK(all_finished(), "ConcurrentTaskSet::wait() returned with %d of %d tasks finished", t.nfinished.get(), ntasks);
       } else if (path == "pf") {
-        dispenso::TaskSet ts(pool);
+        auto ts_p = std::make_unique<dispenso::TaskSet>(pool);
+        dispenso::TaskSet& ts = *ts_p;
         if (ring_likely(k)) mc::cover("ring_fast_path");
         // the hooks of this path are the copies of the loop body that parallel_for makes per chunk while it is
         // inside TaskSet::scheduleBulk; the caller's own chunk and wait() follow inside the same call
@@ -338,7 +348,7 @@ MC_HARNESS(resize_work) {
       }
       mc::observe("hooks", g.count.get());
       a_done.set(1);
-    });
+    };
     mc::spawn([&] { // ---- thread B
       if (g.at) mc::block_until([&] { return g.fired.get() == 1 || g.submitted.get() == 1; });
       for (int m : sizes) {
@@ -347,12 +357,17 @@ MC_HARNESS(resize_work) {
       }
       g.b_done.set(1);
     });
-    // ---- T0: watchdog in virtual time
+    // ---- watchdog in virtual time (a third thread that is blocked for the whole execution)
     uint64_t limit = mc::now_ns() + 3000ull * 1000 * 1000;
-    mc::block_until([&] { return (a_done.get() && g.b_done.get()) || mc::now_ns() > limit; });
-    MC_CHECK(g.b_done.get() == 1, "resize script %s did not finish within 3 s of virtual time", script.c_str());
-    MC_CHECK(a_done.get() == 1, "stranded: the submitter is still waiting after 3 s of virtual time (%d of %d tasks started, %d finished, pool size now %ld)",
-             t.nstarted.get(), ntasks, t.nfinished.get(), (long)pool.numThreads_.a_.load(std::memory_order_relaxed));
+    mc::spawn([&] {
+      mc::block_until([&] { return (a_done.get() && g.b_done.get()) || mc::now_ns() > limit; });
+      MC_CHECK(g.b_done.get() == 1, "resize script %s did not finish within 3 s of virtual time", script.c_str());
+      MC_CHECK(a_done.get() == 1, "stranded: the submitter is still waiting after 3 s of virtual time (%d of %d tasks started, %d finished, pool size now %ld)",
+               t.nstarted.get(), ntasks, t.nfinished.get(), (long)pool.numThreads_.a_.load(std::memory_order_relaxed));
+    });
+    // A runs on T0 itself: moodycamel keys implicit producers by the address of a thread_local, and T0's is the
+    // same in every execution while a spawned thread's is not (the engine then reports a non-deterministic replay)
+    thread_a();
     mc::join_all();
     int final_size = sizes.empty() ? n : sizes.back();
     MC_CHECK(mc_live_threads() == 1 + final_size, "%d modelled threads alive after the script, expected T0 + %d workers", mc_live_threads(), final_size);
